@@ -12,6 +12,10 @@ Families
                (pure-Python shim) and absent.
 ``http_state`` a real HTTP producer stream whose every turn is a continuation (tiny ``max_response_bytes``):
                the state object seen by ``produce()`` after each token round trip equals the one before it.
+
+``null_patterns``  Outer -(link)-> Mid -(link)-> Inner(enum field) with every container kind at both links
+(direct, Optional, list, dict value, list/dict of Optional) x null pattern in the Optional slots (all None / all set /
+mixed): all-null child columns under struct / list / map.
 """
 
 from __future__ import annotations
